@@ -3,6 +3,7 @@ import Driver.Sched
 import Driver.Guard
 import Driver.PtrCell
 import Driver.Dict
+import Driver.BlockAlloc
 
 def main (args : List String) : IO UInt32 := do
   match args with
@@ -11,4 +12,5 @@ def main (args : List String) : IO UInt32 := do
   | ["guard"] => Driver.Guard.main; return 0
   | ["ptrcell"] => Driver.PtrCell.main; return 0
   | ["dict"] => Driver.Dict.main; return 0
+  | ["blockalloc"] => Driver.BlockAlloc.main; return 0
   | _ => IO.eprintln "usage: driver <area>"; return 2
